@@ -164,7 +164,35 @@ package ringqp
 //@   trusted opaque at the abstract level: a fresh scalar
 
 //@ afunc Ring.NewRNSScalarFromUInt64
-//@   trusted opaque at the abstract level: a fresh scalar
+//@   trusted a fresh scalar: the residues of v, not in Montgomery form (row level: func Ring.NewRNSScalarFromUInt64 of package ring, property C15)
+//@   ensures val(result) == v && mexp(result) == 0
+
+//@ afunc Ring.SubRNSScalar
+//@   trusted the ring-element reading of the per-modulus difference s1 - s2
+//@   requires mexp(s1) == mexp(s2)
+//@   assigns sout
+//@   ensures val(sout) == old(val(s1)) - old(val(s2)) && mexp(sout) == old(mexp(s1))
+
+// the inverse is NAMED (uf_inv): an input a*R^k read as Montgomery form stands for a*R^(k-1), whose inverse in
+// Montgomery form is a^-1 * R^(2-k).  That the scalar is invertible modulo every modulus is the caller's
+// business (the ghost predicate distinctmod of package multiparty).
+//@ afunc Ring.Inverse
+//@   trusted the ring-element reading of the per-modulus Fermat inverse (row level: func Ring.Inverse of package ring, proved with the Lean lemmas of C01)
+//@   assigns scalar
+//@   ensures val(scalar) == uf_inv(old(val(scalar))) && mexp(scalar) == 2 - old(mexp(scalar))
+
+// ---- RNS scalars as ring elements (property C15).  A scalar in RNS form (one residue per modulus of Q, then of
+// ---- P) stands for an integer, i.e. a constant of the abstract ring: val / mexp as for polynomials, its
+// ---- identity the identity of its backing array.
+//@ afunc Ring.MulRNSScalar
+//@   trusted the ring-element reading of the per-modulus Montgomery product (row level: func Ring.MulRNSScalar of package ring, property C01/C15): the product loses one Montgomery factor
+//@   assigns sout
+//@   ensures val(sout) == old(val(s1)) * old(val(s2)) && mexp(sout) == old(mexp(s1)) + old(mexp(s2)) - 1
+
+//@ afunc Ring.MulRNSScalarMontgomery
+//@   trusted the ring-element reading of the per-modulus Montgomery product of a polynomial with an RNS scalar, on the Q part and, where there is one, the P part
+//@   assigns pOut.Q, pOut.P
+//@   ensures val(pOut.Q) == old(val(p.Q)) * old(val(scalar)) && mexp(pOut.Q) == old(mexp(p.Q)) + old(mexp(scalar)) - 1 && dom(pOut.Q) == old(dom(p.Q))
 
 // Read back in the order written (C08): see /verif/cmd/lvc/fieldordercheck.go
 //@ fieldorder Poly
